@@ -9,7 +9,7 @@ from .source import SourceError, header_text, strip_docstring
 from .contract import Clause, Contract, Loop
 from .engine import (V, Py, NONE_V, mk_bool, mk_int, mk_str, Obligation, SymExc, Signal, ReturnSig,
                      BreakSig, ContinueSig, PathEnd, RaiseSig, Unsupported, State)
-from .verifier import Verifier, Frame, _parse_expr, NOOP_FUNCS
+from .verifier import Verifier, Frame, _parse_expr, NOOP_FUNCS, _split_top
 
 SPEC_ONLY = {"str_to_int", "witness", "join_strs", "snap_key", "allocated", "abs_select", "lo", "hi", "store", "const_arr", "elems", "lemma", "old", "at_loop", "implies", "iff", "ite", "forall", "exists", "fresh", "typeis", "instance",
              "unchanged", "unchanged_since_loop", "seq_len", "int_str", "join", "in_re", "card", "is_none",
@@ -149,9 +149,14 @@ class Exec(Verifier):
     def st_Assert(self, s):
         c = self.truth(self.ev(s.test))
         label = "assert %s" % ast.unparse(s.test)
+        needs = None
         if self.in_ghost and isinstance(s.msg, ast.Constant) and isinstance(s.msg.value, str):
-            label = "ghost assertion %s" % s.msg.value      # `assert cond, 'name'` in ghost code: a named obligation
-        self.oblige(label, "ghost" if self.in_ghost else "assert", c, text=ast.unparse(s.test))
+            # `assert cond, 'name'` in ghost code: a named obligation; 'name | needs=a,b' restricts the labelled hypotheses
+            nm, _, rest = s.msg.value.partition("|")
+            label = "ghost assertion %s" % nm.strip()
+            if rest.strip().startswith("needs="):
+                needs = [x.strip() for x in rest.strip()[6:].split(",") if x.strip()]
+        self.oblige(label, "ghost" if self.in_ghost else "assert", c, text=ast.unparse(s.test), needs=needs)
 
     def st_Return(self, s):
         v = self.ev(s.value) if s.value is not None else NONE_V
@@ -798,6 +803,7 @@ class Exec(Verifier):
         else:
             new_regions = ["#" + m.split("@", 1)[1].strip() for m in spec.modifies if m.startswith("new@")]
             new_fields = [m.split(":", 1)[1].strip() for m in spec.modifies if m.startswith("new:")]
+            loop_targets = self.frame_targets(spec.modifies, dict(self.st.loc))
             self.havoc([m for m in spec.modifies if not m.startswith("new@") and not m.startswith("new:")], dict(self.st.loc),
                        allocates=('$alloc' in spec.modifies or bool(new_regions) or bool(new_fields)))
             alloc_pre = pre_heap.get("$alloc", self._init_heap.get("$alloc", self.alloc_map()))
@@ -820,9 +826,14 @@ class Exec(Verifier):
         head_heap = dict(self.st.heap)
         alloc_head = self.alloc_map()
         self.loop_heap = pre_heap
-        # 3. assume invariant
+        # 3. assume invariant (each clause is tagged with its label: see Clause.needs)
+        if not hasattr(self, "pc_tags"):
+            self.pc_tags = {}
         for cl in spec.invariant:
+            mark = len(self.st.pc)
             self.assume(self.spec(cl.expr, dict(self.st.loc)))
+            for f in self.st.pc[mark:]:
+                self.pc_tags[f.get_id()] = cl.label
         dec0 = self.eval_decreases(spec)
         # 4. condition
         if src is None:
@@ -855,32 +866,13 @@ class Exec(Verifier):
                             self.oblige("%s: the iterated container is not modified by the body" % label, "safety", u, props)
                 for cl in spec.invariant:
                     self.oblige("%s invariant %s is preserved" % (label, cl.label), "inv-preserve",
-                                self.spec(cl.expr, dict(self.st.loc)), cl.props or props, text=cl.expr)
+                                self.spec(cl.expr, dict(self.st.loc)), cl.props or props, text=cl.expr, needs=cl.needs, own=cl.label)
                 if dec0 is not None:
                     dec1 = self.eval_decreases(spec)
                     self.oblige("%s variant decreases" % label, "decreases", _lex_less(dec1, dec0), props, text=str(spec.decreases))
-                # frame: heap locations outside `modifies` are untouched
+                # frame: heap locations outside `modifies` are untouched (targets as evaluated at the loop head)
                 if spec.modifies is not None:
-                    new_regions = ["#" + m.split("@", 1)[1].strip() for m in spec.modifies if m.startswith("new@")]
-                    new_keys = set()
-                    for m in spec.modifies:
-                        if m.startswith("new:"):
-                            cname, attr = m.split(":", 1)[1].strip().split(".", 1)
-                            fk = self.field_key(cname, attr)
-                            if fk is not None:
-                                new_keys.add(fk[0])
-                    for k, term in list(self.st.heap.items()):
-                        h0 = head_heap.get(k, self._init_heap.get(k))
-                        if h0 is None or term.get_id() == h0.get_id():
-                            continue
-                        if k in new_keys and self._in_modifies(k, [m for m in spec.modifies if not m.startswith("new:")]):
-                            continue
-                        if any(k.endswith(rg) for rg in new_regions) or k in new_keys:
-                            r = self.fresh("r", Ref)
-                            self.oblige("%s frame: %s changes only at objects allocated by this iteration" % (label, k), "frame",
-                                        z3.ForAll([r], z3.Implies(z3.Select(alloc_head, r), z3.Select(term, r) == z3.Select(h0, r))), props)
-                        elif not self._in_modifies(k, spec.modifies):
-                            self.oblige("%s frame: %s is not modified" % (label, k), "frame", term == h0, props)
+                    self.frame_obligations(label, spec.modifies, loop_targets, head_heap, alloc_head, props)
                 self.loop_heap = saved_loop_heap
                 raise PathEnd()
             self.loop_heap = saved_loop_heap
@@ -888,6 +880,86 @@ class Exec(Verifier):
         self.loop_heap = saved_loop_heap
         if s.orelse:
             self.exec_block(s.orelse)
+
+    # ------------------------------------------------------------------ precise frames
+    def frame_targets(self, modifies, env):
+        """Evaluate NOW (entry of the function / head of the loop) the objects named by the `X@objs` entries of a
+        modifies list -> {entry string: [values]}."""
+        out = {}
+        for m in modifies or ():
+            if "@" in m and not m.startswith("new@"):
+                objs = m.split("@", 1)[1]
+                mark = len(self.st.pc)
+                n_obl = len(self.obligations)
+                try:
+                    out[m] = [self.spec_value(o.strip(), env) for o in _split_top(objs)]
+                except (Signal, Unsupported, KeyError):
+                    # names a local that does not exist yet (a container the function creates itself): such objects
+                    # are not allocated in the reference state, so they need no entry in the frame
+                    out[m] = []
+                    del self.st.pc[mark:]
+                    del self.obligations[n_obl:]
+        return out
+
+    _CONT_PREF = {"list": ("$len", "$el:"), "deque": ("$dlo", "$dhi", "$el:"), "set": ("$set:", "$card"),
+                  "dict": ("$dom:", "$map:", "$card")}
+
+    def frame_allowed(self, hkey, modifies, targets):
+        """None: the whole heap map `hkey` may change; otherwise the list of Ref terms at which it may change."""
+        allowed = []
+        for m in modifies or ():
+            if m.startswith("new@") or m.startswith("new:"):
+                continue
+            key = m.split("@")[0].strip()
+            if key == "$alloc":
+                if hkey == "$alloc":
+                    return None
+                continue
+            if key.startswith("region:"):
+                if hkey.startswith("$") and hkey.endswith("#" + key.split(":", 1)[1]):
+                    return None
+                continue
+            if key.startswith("$g:") or key in self.reg.logic.globals:
+                gname = key[3:] if key.startswith("$g:") else key
+                if hkey == "$g:" + gname:
+                    return None
+                continue
+            if key in self._CONT_PREF:
+                for tv in targets.get(m, []):
+                    rg = tv.ty.region
+                    if any(hkey.startswith(p_) for p_ in self._CONT_PREF[key]) and (hkey.endswith(rg) if rg else "#" not in hkey):
+                        allowed.append(tv.t)
+                continue
+            if "." in key:
+                cname, attr = key.split(".", 1)
+                fk = self.field_key(cname, attr)
+                if fk is not None and fk[0] == hkey:
+                    if "@" in m:
+                        allowed += [tv.t for tv in targets.get(m, [])]
+                    else:
+                        return None
+        if hkey == "$alloc":
+            return None
+        return allowed
+
+    def frame_obligations(self, label, modifies, targets, h0map, alloc0, props, kind="frame"):
+        """For every heap map that differs from `h0map`: it may differ only where `modifies` allows, or at objects that
+        were not allocated in the reference state (fresh objects are invisible to the caller / the previous iteration)."""
+        for k, term in list(self.st.heap.items()):
+            h0 = h0map.get(k, self._init_heap.get(k))
+            if h0 is None or term.get_id() == h0.get_id():
+                continue
+            allowed = self.frame_allowed(k, modifies, targets)
+            if allowed is None:
+                continue
+            if not (z3.is_array(term) and term.sort().domain() == Ref):
+                self.oblige("%s frame: %s is not modified" % (label, k), kind, term == h0, props)
+                continue
+            r = self.fresh("r", Ref)
+            guard = [z3.Select(alloc0, r)] + [r != a for a in allowed]
+            what = "changes only at the listed objects" if allowed else "is not modified (except at objects allocated meanwhile)"
+            self.oblige("%s frame: %s %s" % (label, k, what), kind,
+                        z3.ForAll([r], z3.Implies(AND(*guard), z3.Select(term, r) == z3.Select(h0, r))), props)
 
     def _in_modifies(self, hkey, modifies):
         for m in modifies:
@@ -1117,10 +1189,17 @@ class Exec(Verifier):
             self.frame = self.make_frame(con.file, con.qualname, fdef, con, set(env))
             self.frame_params = set(env)
             self.st.loc = env
+            if not hasattr(self, "pc_tags"):
+                self.pc_tags = {}
             for cl in con.requires:
+                mark = len(self.st.pc)
                 self.assume(self.spec(cl.expr, dict(env)))
+                for f in self.st.pc[mark:]:
+                    self.pc_tags[f.get_id()] = cl.label
             self.entry_heap = dict(self.st.heap)
             self.entry_loc = dict(env)
+            self.entry_targets = self.frame_targets(con.modifies, dict(env))
+            self.entry_alloc = self.alloc_map()
             self.probes.append(("%s::entry (requires satisfiable)" % con.qualname, list(self.st.glob) + list(self.st.pc)))
             try:
                 self.exec_block(strip_docstring(fdef.body))
@@ -1154,7 +1233,8 @@ class Exec(Verifier):
         self.old_heap = None
         self.probes.append(("%s::normal exit reachable" % con.qualname, list(self.st.glob) + list(self.st.pc)))
         for cl in con.ensures:
-            self.oblige("ensures %s" % cl.label, "post", self.spec(cl.expr, env), cl.props or con.props, text=cl.expr)
+            self.oblige("ensures %s" % cl.label, "post", self.spec(cl.expr, env), cl.props or con.props, text=cl.expr, needs=cl.needs)
+        self.frame_obligations("modifies", con.modifies, self.entry_targets, self.entry_heap, self.entry_alloc, con.props)
 
     def check_raise(self, con, exc):
         env = dict(self.st.loc)
@@ -1166,6 +1246,7 @@ class Exec(Verifier):
         tag = ""
         if self.abort_at is not None:
             tag = " [abort %s `%s`]" % (self.abort_at[1], self.abort_at[2][:70])
+        self.frame_obligations("modifies (exit by %s%s)" % (exc.cls, tag), con.modifies, self.entry_targets, self.entry_heap, self.entry_alloc, con.props)
         matched = None
         for key in con.raises:
             kn = key.rstrip("+")
